@@ -237,7 +237,8 @@ struct SocksEngine : Engine
 		if (v < bases.size() * 4) {
 			Neg const& n = bases[size_t(v / 4)]; int fam = int(v % 4);
 			std::vector<bytes> msgs = neg_msgs(n); bytes stream; for (auto& m : msgs) stream += m;
-			static const int subst[] = { 0, 1, 2, 3, 4, 5, 6, 0x7f, 0x80, 0xff };
+			std::vector<int> subst = { 0, 1, 2, 3, 4, 5, 6, 0x7f, 0x80, 0xff };
+			if (ctx.args.thorough()) { subst.clear(); for (int x = 0; x < 256; ++x) subst.push_back(x); } // thorough: every byte value
 			if (fam == 0) for (size_t i = 0; i < stream.size(); ++i) for (int b : subst) { if (char(b) == stream[i]) continue; Scn s; s.neg = n; s.has_override = true; s.override_stream = stream; s.override_stream[i] = char(b); s.override_stream += payload(0, 300); s.label = fmt("byte %zu := %02x", i, b); one(ctx, u, s, "mutation"); }
 			if (fam == 1) for (size_t l = 0; l < stream.size(); ++l) { Scn s; s.neg = n; s.has_override = true; s.override_stream = stream.substr(0, l); s.eof_after = true; s.label = fmt("truncated to %zu bytes, then EOF", l); one(ctx, u, s, "truncation"); }
 			if (fam == 2) { size_t bnd = 0; for (size_t m = 0; m <= msgs.size(); ++m) { Scn s; s.neg = n; s.has_override = true; s.override_stream = stream.substr(0, bnd) + bytes(200000, 'F') + stream.substr(bnd); s.label = fmt("200 kB of filler inserted at offset %zu", bnd); one(ctx, u, s, "overlong"); if (m < msgs.size()) bnd += msgs[m].size(); }
@@ -254,7 +255,7 @@ struct SocksEngine : Engine
 			}
 			return;
 		}
-		ctx.R.bounds["negotiations"] = (long long)negs.size(); ctx.R.bounds["mutation_values"] = 10;
+		ctx.R.bounds["negotiations"] = (long long)negs.size(); ctx.R.bounds["mutation_values"] = ctx.args.thorough() ? 256 : 10;
 	}
 	int replay(Case const& c, Args const& a) override
 	{
